@@ -810,6 +810,7 @@ func (p *Parser) primary() (ast.Expr, error) {
 func (p *Parser) objectLiteral() (ast.Expr, error) {
 	properties := make(map[string]ast.Expr)
 	keys := []string{}
+	values := []ast.Expr{}
 
 	for !p.check(token.RIGHT_BRACE) && !p.isAtEnd() {
 		propName, err := p.consume(token.IDENTIFIER, "Expect property name. Must be a string.")
@@ -831,9 +832,8 @@ func (p *Parser) objectLiteral() (ast.Expr, error) {
 
 		// fmt.Printf("%#v ---- %#v\n", propName, propValue)
 		// Store the property in the map
-		if _, seen := properties[propName.Lexeme]; !seen {
-			keys = append(keys, propName.Lexeme)
-		}
+		keys = append(keys, propName.Lexeme)
+		values = append(values, propValue)
 		properties[propName.Lexeme] = propValue
 
 		// If there's no comma, break out of the loop
@@ -847,7 +847,7 @@ func (p *Parser) objectLiteral() (ast.Expr, error) {
 	if err != nil {
 		return nil, err
 	}
-	return &ast.ObjectLiteral{Properties: properties, Keys: keys}, nil
+	return &ast.ObjectLiteral{Properties: properties, Keys: keys, Values: values}, nil
 }
 
 // New function to handle array literals
